@@ -33,6 +33,16 @@ Lemma generic_casting_clean cast v : clean (generic_casting cast v).
 Proof. destruct v; simpl; auto. Qed.
 Lemma json_prepass_clean loads v : clean (json_prepass loads v).
 Proof. unfold json_prepass. match goal with |- clean (match ?x with _ => _ end) => destruct x as [| | | | | | |[|? ?]]; exact I end. Qed.
+(* text stays text: the pre-pass never turns a string into another string (F29), so applying it to its own output changes nothing *)
+Lemma json_prepass_text_to_text loads s t : json_prepass loads (VStr s) = Ok (VStr t) -> t = s.
+Proof.
+  unfold json_prepass. destruct (loads s) as [j|] eqn:L.
+  - destruct j as [| | | | | | |[|? ?]]; intros H; inversion H; reflexivity.
+  - intros H; inversion H; reflexivity.
+Qed.
+Lemma json_prepass_idempotent_on_text loads s t : json_prepass loads (VStr s) = Ok (VStr t) ->
+  json_prepass loads (VStr t) = Ok (VStr t).
+Proof. intros H. pose proof (json_prepass_text_to_text _ _ _ H) as E. subst t. exact H. Qed.
 (* the only input it refuses is the empty object, literal or as JSON text; in particular json.loads' own failures never escape *)
 Lemma json_prepass_refuses_only_empty loads v e : json_prepass loads v = Err e ->
   e = EValue /\ (v = VDict [] \/ exists s, v = VStr s /\ loads s = Some (VDict [])).
